@@ -201,3 +201,31 @@ PROPS = {
         "explanation": "C11_join_spec/C11_resolve_spec: joinSubPath = failing segment stack for every valid base sub-path and every relative path (all depths); C11_never_escapes; C11_same_kind; C11_abs_unchanged. Tie: 'resolve' lane runs ResolveRelativeSource/ResolveRelativeFinalSource/FinalSourceAddr next to the model and a Go segment-stack reference.",
     },
 }
+
+# ---------------------------------------------------------------------------------------------
+# Neighbouring lanes.  The model of one Go function is shared by several properties (all Pack
+# properties rest on Pack.lean, all builder properties on Builder.lean, ...).  A change that breaks
+# the correspondence of such a model breaks the tie of every theorem stated over it, also when the
+# property's own oracle looks at something else (rounds 5 and 6 of the seeded changes: 20 of 40 were
+# first seen only by a neighbouring property's lane).  Every property therefore also runs, at a small
+# size, the other lanes of the models its theorems are stated over; from those lanes only
+# model/implementation differences and this property's own oracle failures count.
+_PACK = [("pack", 600, 15000), ("pack-spelling", 20, 400), ("pack-faults", 3, 20), ("ignore", 600, 15000)]
+_UNPACK = [("unpack", 800, 15000), ("unpack-faults", 4, 15)]
+_BUILDER = [("builder", 300, 8000), ("builder-faults", 8, 80), ("builder-order", 10, 120), ("bundle-roundtrip", 20, 400), ("sanitise", 500, 10000)]
+_BUNDLE = [("bundle", 500, 10000)]
+_ADDR = [("addr", 1500, 40000), ("resolve", 300, 8000), ("registry", 1000, 20000)]
+_NEIGHBOURS = {
+    "C01": _UNPACK, "C02": _PACK + _UNPACK, "C03": _PACK + [("sanitise", 500, 10000)], "C04": _UNPACK,
+    "C05": _PACK + [("unpack", 500, 10000)], "C06": _ADDR, "C07": _ADDR, "C08": _BUILDER + _BUNDLE,
+    "C09": _BUILDER + _BUNDLE, "C10": [("sanitise", 500, 10000), ("ignore", 600, 15000), ("builder", 300, 8000)],
+    "C11": _ADDR, "C12": _UNPACK + _BUILDER + [("pack-faults", 3, 20)], "C13": _BUILDER + _BUNDLE, "C14": _BUILDER,
+    "C15": _UNPACK, "C16": _PACK, "C17": _BUILDER, "C18": _BUNDLE + [("builder", 300, 8000), ("bundle-roundtrip", 20, 400)],
+    "C19": _PACK + _UNPACK + _ADDR + _BUNDLE + [("builder", 300, 8000)], "C20": _PACK,
+}
+for _p, _ls in _NEIGHBOURS.items():
+    _have = {l["lane"] for l in PROPS[_p]["lanes"] if not l.get("uid") and not l.get("race")}
+    for _name, _q, _t in _ls:
+        if _name not in _have:
+            PROPS[_p]["lanes"].append({"lane": _name, "quick": _q, "thorough": _t, "neighbour": True})
+            _have.add(_name)
